@@ -2,6 +2,7 @@ package checks
 
 import (
 	"fmt"
+	"strings"
 
 	"verifmc/fw"
 
@@ -102,7 +103,7 @@ func init() {
 		ID:    "C14",
 		Level: "model_checking",
 		Rule: "every string up to the length bound over {quote, other quote, ASCII letter, 2-, 3- and 4-byte characters, space, LF} x quote in {',\",”} x the three quote states; " +
-			"oracle: Decode never panics, Decode(Encode(s))=s, and for the expression and CSV states the encoding followed by each tail in {EOF,' x',','} is read back as one token that decodes to s with the scanner left at the tail; non-trivial = non-empty string",
+			"oracle: Decode never panics, Decode(Encode(s))=s, and for the expression and CSV states the encoding followed by each tail in {EOF,' x',','} is read back as one token that decodes to s with the scanner left at the tail; plus every history of <=3 Encode/Decode calls with any of the three quote characters on ONE state instance, each result compared with a fresh instance; non-trivial = non-empty string",
 		Assume: []string{"one representative per UTF-8 width stands for the width class"},
 		Spaces: func(tier string) []fw.Space {
 			maxLen := 5
@@ -119,6 +120,20 @@ func init() {
 						Repr: func(i int64) string { return fmt.Sprintf("%s quote state, quote %q, string %q", state, string(q), stringByIndex(al, i)) }})
 				}
 			}
+			hl := 3
+			for _, state := range c14States {
+				state := state
+				k := len(c14Ops)
+				sp = append(sp, fw.Space{Name: "shared-instance-" + state, N: countStrings(k, hl),
+					Run: func(c *fw.Ctx, i int64) { c14History(c, state, seqByIndex(k, i)) },
+					Repr: func(i int64) string {
+						p := []string{}
+						for _, x := range seqByIndex(k, i) {
+							p = append(p, c14Ops[x].String())
+						}
+						return state + " quote state, one instance: " + strings.Join(p, "; ")
+					}})
+			}
 			return sp
 		},
 		Bounds: func(tier string) string {
@@ -128,4 +143,63 @@ func init() {
 			return "strings of length<=5 over 9 characters x 3 quotes x 3 states"
 		},
 	})
+}
+
+// ---- one long-lived quote state used with several quote characters (differential against fresh states)
+
+var c14HistStrings = []string{"a", "it's", "say \"hi\"", "”x”", "''", "\"\"", "'a''b'", "\"a\"\"b\""}
+
+type c14Op struct {
+	enc bool
+	q   rune
+	s   string
+}
+
+func (o c14Op) String() string {
+	if o.enc {
+		return fmt.Sprintf("Encode(%q,%q)", o.s, string(o.q))
+	}
+	return fmt.Sprintf("Decode(%q,%q)", o.s, string(o.q))
+}
+
+var c14Ops []c14Op
+
+func init() {
+	for _, enc := range []bool{true, false} {
+		for _, q := range c14Quotes {
+			for _, s := range c14HistStrings {
+				c14Ops = append(c14Ops, c14Op{enc, q, s})
+			}
+		}
+	}
+}
+
+func c14History(c *fw.Ctx, state string, seq []int) {
+	st := c14State(state)
+	hist := []string{}
+	for _, k := range seq {
+		o := c14Ops[k]
+		apply := func(s tokenizers.IQuoteState) (out string) {
+			defer func() {
+				if p := recover(); p != nil {
+					out = "panic: " + panicShort(p)
+				}
+			}()
+			if o.enc {
+				return s.EncodeString(o.s, o.q)
+			}
+			return s.DecodeString(o.s, o.q)
+		}
+		got := apply(st)
+		want := apply(c14State(state))
+		c.Eval(2)
+		if got != want {
+			c.Violation("quote-state-history-dependent:"+state, "%s quote state after [%s]: %s = %q, a fresh state gives %q", state, strings.Join(hist, "; "), o, got, want)
+			return
+		}
+		hist = append(hist, o.String())
+	}
+	if len(seq) >= 2 {
+		c.Nontrivial()
+	}
 }
